@@ -1,5 +1,10 @@
 import TongoModel.Message
 import TongoProofs.Lemmas.Message
+import TongoProofs.Lemmas.MessageHash
+import TongoProofs.Lemmas.MessageTlb
+import TongoProofs.C01
+import TongoProofs.C02
+import TongoProofs.C04
 /-! Property C16 — message and transaction identity hashes match their source cells.
 Property theorems only. `H` is the hash function (a parameter; SHA-256 in the driver); `Cell.reprHash H` is the
 representation hash of TongoModel/Cell.lean (the model of Cell.Hash, property C02). -/
@@ -120,6 +125,63 @@ theorem norm_ignores_src_fee_init_placement (p1 p2 : ExtInParts) (c1 c2 : Cell) 
   · exact hd
   · rw [← f1, ← f2]; exact hb
 
+/-- **All three kinds.** For a message of ANY kind (internal, external-in, external-out) built from well-formed parts —
+any addresses, amounts below 2^64 (2^120 for the import fee), absent / inline / referenced state-init, inline /
+referenced body — and encoded into a cell (when it fits), decoding as the library does reports the representation
+hash of that cell and recovers exactly the info, the init and the body value (the same body whether it was inline
+or in a reference). -/
+theorem msg_roundtrip_all_kinds (p : MsgParts) (w : MsgPartsWF p) (c : Cell) (e : encodeMsg p = .ok c)
+    (m : Message) (u : unmarshalMessage H c = .ok m) :
+    c.reprHash H = .ok m.hash ∧ m.msg.info = p.info ∧ bodyCell m.msg = p.bodyValue ∧
+      m.msg.bodyIsRef = (p.bodyForm == .ref) := by
+  have f := msg_fields_from_start H c m u
+  rw [encodeMsg_cell p c e] at f
+  simp only [Cell.ordinary, Cell.bits, Cell.refs] at f
+  rw [decodeMsg_encodeMsgRaw p w] at f
+  injection f with f
+  refine ⟨msg_hash_is_cell_hash H c m u, ?_, ?_, ?_⟩ <;> rw [← f] <;> rfl
+
+/-- **The hand-written layout is the block.tlb layout.** For every message of any kind whose parts lie in the domain
+of the transcribed schema (C04's SPEC `Tlb.Spec.Message`: anycast depth ≤ 30, no extra currencies, empty state-init
+library, ordinary body cell) the bits and references that `message$_ info:CommonMsgInfo init:(Maybe (Either StateInit
+^StateInit)) body:(Either X ^X)` prescribes are exactly those of this file's encoder. -/
+theorem layout_is_block_tlb (g : Nat) (hg : 40 ≤ g) (info : Info) (init : InitTlb) (form : BodyForm) (body : Cell)
+    (hi : InfoWF info) (ht : InfoTlb info) (hinit : init.wf) (hb : body = Cell.mk 0 0 body.bits body.refs) :
+    Tlb.Spec.specChunk Tlb.Spec.senv g Tlb.Spec.Message (msgVal info init form body) =
+      some (encodeMsgRaw ⟨info, init.toForm, form, body⟩) :=
+  spec_message g hg info init form body hi ht hinit hb
+
+/-- **…and the layout of the Go struct definitions.** `desc_tlb_Message` is the descriptor REGENERATED on every run from
+tlb/messages.go (field order, tlb tags, constructor tags); C04's `impl_eq_spec_Message` decides that it matches the
+schema. Hence whenever the model of tlb.Marshal encodes such a message value with that descriptor, the cell it
+produces is the cell of this file's encoder — a changed struct tag, field order or constructor tag in
+tlb/messages.go breaks `impl_eq_spec_Message` and with it this theorem. -/
+theorem layout_matches_go_descriptor (info : Info) (init : InitTlb) (form : BodyForm) (body : Cell)
+    (hi : InfoWF info) (ht : InfoTlb info) (hinit : init.wf) (hb : body = Cell.mk 0 0 body.bits body.refs)
+    (fuel : Nat)
+    (hd : Tlb.inDom TongoGen.TlbTypes.env fuel TongoGen.TlbTypes.desc_tlb_Message (msgVal info init form body) = true)
+    (b' : Tlb.Builder)
+    (he : Tlb.encode TongoGen.TlbTypes.env fuel TongoGen.TlbTypes.desc_tlb_Message (msgVal info init form body)
+      Tlb.Builder.empty = .ok b') :
+    b'.toCell = Cell.mk 0 0 (encodeMsgRaw ⟨info, init.toForm, form, body⟩).1 (encodeMsgRaw ⟨info, init.toForm, form, body⟩).2 := by
+  obtain ⟨g, c, hc, hcell⟩ := Tlb.C04.impl_cell_eq_spec _ _ _ Tlb.C04.impl_eq_spec_Message fuel _ hd b' he
+  have h1 := Tlb.Spec.specChunk_mono (Nat.le_max_left g 40) hc
+  have h2 := spec_message (max g 40) (Nat.le_max_right g 40) info init form body hi ht hinit hb
+  rw [h2] at h1
+  injection h1 with h1
+  rw [hcell, ← h1]
+
+/-- the hypotheses of `layout_matches_go_descriptor` are satisfiable (a test on one literal, decided by the kernel): an
+external-in message to a standard address with a 3-bit body in a reference is in the domain of the regenerated
+descriptor and the encoder model succeeds on it -/
+example :
+    Tlb.inDom TongoGen.TlbTypes.env 60 TongoGen.TlbTypes.desc_tlb_Message
+      (msgVal (.extIn .none (.std none 0 (List.replicate 32 7)) 5) .absent .ref (Cell.mk 0 0 [true, false, true] [])) = true ∧
+    (Tlb.encode TongoGen.TlbTypes.env 60 TongoGen.TlbTypes.desc_tlb_Message
+      (msgVal (.extIn .none (.std none 0 (List.replicate 32 7)) 5) .absent .ref (Cell.mk 0 0 [true, false, true] []))
+      Tlb.Builder.empty).isOk = true := by
+  decide +kernel
+
 /-- The normalised hash is the hash of the canonical re-encoding: the schema-level encoder applied to the canonical
 parts (no source, destination without a standard address's anycast, zero import fee, no init, body in a
 reference) produces exactly the cell that `Hash(true)` builds by hand. -/
@@ -152,37 +214,62 @@ theorem canonical_is_fixed_point (dest : MsgAddr) (body : Cell) (hw : AddrWF des
   simp only [bodyCell, canonicalParts]
   exact hb.symm
 
-/-- Under collision-freedom of the representation hash on the two canonical cells (C02 `hash_injective`, stated here
-as the explicit hypothesis `hinj`), external-in messages with different destinations (beyond a standard address's
-anycast) or different bodies have different normalised hashes. -/
+/-- **The normalised hash distinguishes.** The only idealisation is collision-freedom of `H` on the TWO byte strings
+`canonRepr` (descriptor bytes, tagged data, depth and hash of the body reference) of the two canonical cells.
+For well-formed cells within the depth limit, `Cell.Hash` is the representation hash of the TON definition
+(C02 `reprHash_eq_spec`), which for the canonical cell is `H (canonRepr …)`; `canonRepr` is injective in (data bits,
+body hash) (`canonRepr_injective`) and the data bits in the destination (`encodeAddr_injective`). Hence two
+external-in messages whose destinations differ (beyond a standard address's anycast) or whose bodies have different
+representation hashes have different normalised hashes. -/
 theorem norm_distinguishes (m1 m2 : Message) (s1 s2 d1 d2 : MsgAddr) (f1 f2 : Nat)
     (h1 : m1.msg.info = .extIn s1 d1 f1) (h2 : m2.msg.info = .extIn s2 d2 f2)
     (w1 : AddrWF d1) (w2 : AddrWF d2)
-    (hinj : ∀ a b : Cell, a = normCell d1 (bodyCell m1.msg) → b = normCell d2 (bodyCell m2.msg) →
-      a.reprHash H = b.reprHash H → a = b)
-    (hne : normDest d1 ≠ normDest d2 ∨ bodyCell m1.msg ≠ bodyCell m2.msg) :
+    (wf1 : Spec.WFExotic (normCell d1 (bodyCell m1.msg))) (wf2 : Spec.WFExotic (normCell d2 (bodyCell m2.msg)))
+    (nd1 : Spec.tooDeep (normCell d1 (bodyCell m1.msg)) = false) (nd2 : Spec.tooDeep (normCell d2 (bodyCell m2.msg)) = false)
+    (cf : CollisionFree H [canonRepr H d1 (bodyCell m1.msg), canonRepr H d2 (bodyCell m2.msg)])
+    (hne : normDest d1 ≠ normDest d2 ∨
+      Spec.reprHash H (bodyCell m1.msg) ≠ Spec.reprHash H (bodyCell m2.msg)) :
     m1.hashOf H true ≠ m2.hashOf H true := by
-  rw [norm_hash_def H m1 s1 d1 f1 h1, norm_hash_def H m2 s2 d2 f2 h2]
+  rw [norm_hash_def H m1 s1 d1 f1 h1, norm_hash_def H m2 s2 d2 f2 h2,
+    C02.reprHash_eq_spec H _ wf1 nd1, C02.reprHash_eq_spec H _ wf2 nd2,
+    spec_reprHash_normCell, spec_reprHash_normCell]
   intro heq
-  have hc := hinj _ _ rfl rfl heq
-  obtain ⟨hbits, hrefs⟩ := normCell_inj d1 d2 _ _ hc
+  injection heq with heq
+  have hr := cf _ (by simp) _ (by simp) heq
+  obtain ⟨hbits, hbody⟩ := canonRepr_injective H d1 d2 _ _ (normBits_length_le d1 w1) (normBits_length_le d2 w2) hr
   rcases hne with hne | hne
-  · exact hne (encodeAddr_injective _ _ (normDest_wf d1 w1) (normDest_wf d2 w2) hbits)
-  · exact hne hrefs
+  · exact hne (normBits_inj d1 d2 w1 w2 hbits)
+  · apply hne
+    unfold bodyCell at hbody ⊢
+    rw [← spec_body_hash, ← spec_body_hash]
+    exact hbody
 
-/-- the distinguishing hypothesis `hne` of `norm_distinguishes` is satisfiable: two standard destinations differing
-in the workchain (a test on literals, not a proof of anything general) -/
-example : normDest (.std none 0 (List.replicate 32 0)) ≠ normDest (.std none 1 (List.replicate 32 0)) := by decide
+/-- the hypotheses of `norm_distinguishes` are satisfiable (a test on literals): an empty body, two standard
+destinations in different workchains; the canonical cells are well formed and shallow -/
+example :
+    Spec.WFExotic (normCell (.std none 0 (List.replicate 32 0)) (Cell.ordinary [] [])) ∧
+    Spec.tooDeep (normCell (.std none 1 (List.replicate 32 0)) (Cell.ordinary [] [])) = false ∧
+    normDest (.std none 0 (List.replicate 32 0)) ≠ normDest (.std none 1 (List.replicate 32 0)) := by
+  refine ⟨by decide +kernel, by decide +kernel, by decide⟩
 
-/-- The source BOC of a transaction parses back to a cell with the reported hash — given the BOC round trip of
-property C01 (`hrt`, owned by the BOC slice, cited here as a hypothesis about the serializer/parser pair). -/
-theorem source_boc_roundtrip {β} (serialize : Cell → Outcome β) (parse : β → Outcome (List Cell))
-    (hrt : ∀ c b, serialize c = .ok b → parse b = .ok [c])
-    (c : Cell) (t : TxCapture) (h : captureTx H c = .ok t) (b : β) (hb : t.sourceBoc serialize = .ok b) :
-    ∃ c', parse b = .ok [c'] ∧ c'.reprHash H = .ok t.hash := by
-  obtain ⟨hh, hs⟩ := tx_hash_is_cell_hash H c t h
-  unfold TxCapture.sourceBoc at hb
-  rw [hs] at hb
-  exact ⟨c, hrt c b hb, hh⟩
+/-- **The source BOC parses back to the source cell with the reported hash** — through C01 `roundtrip` (the model of
+the repaired Go reader applied to what `serializeBoc` writes, all header arithmetic included).
+`SourceBoc()` serialises the captured cell with idx = crc = cacheBits = false. The ONE premise that remains is the
+one C01 itself leaves open (`C01.order_valid`, checked per input by the verified reader, not proved): the order
+`(t, roots)` computed by importCell/reorderCells/revisit for the source cell is a valid layout that unfolds to that
+cell (`hv`, `horder`). `hn`/`hlen` are the size limits of the format (fewer than 2²⁴ cells, a Go slice). -/
+theorem source_boc_roundtrip (c : Cell) (tx : TxCapture) (h : captureTx H c = .ok tx)
+    (t : Table) (root : Nat) (hv : Boc.ValidLayout t [root])
+    (horder : Table.unfold t (t.size + 1) root = some tx.source)
+    (hn : t.size < 16777216)
+    (hlen : (Boc.Writer.serializeOrdered t [root] false false false []).length < Boc.two63) :
+    Boc.parseBoc (Boc.Writer.serializeOrdered t [root] false false false []) = .ok (t, [root]) ∧
+      Table.unfold t (t.size + 1) root = some c ∧ c.reprHash H = .ok tx.hash ∧
+      (Table.infos H t)[root]? = some (Cell.info H c) := by
+  obtain ⟨hh, hs⟩ := tx_hash_is_cell_hash H c tx h
+  have hroot : root < t.size := hv.1.2.1 root (by simp)
+  refine ⟨C01.roundtrip t [root] false false false [] hv hn (by simp) (by simp; omega) hlen, ?_, hh, ?_⟩
+  · rw [horder, hs]
+  · exact C02.table_refines_tree H t (t.size + 1) root c (by rw [horder, hs])
 
 end Tongo.C16
